@@ -93,6 +93,12 @@ class FrameParser(Parser):
             )
             if self.validate:
                 frame.validate()
+                # The payload has not been read yet, so Frame.validate
+                # can't see its size; check the declared length here.
+                if frame.is_control and payload_length > 125:
+                    raise errors.ProtocolError(
+                        "control frames must be <= 125 bytes in length"
+                    )
 
             if frame.is_text:
                 self._is_text = True
